@@ -215,19 +215,87 @@ let interp_query (toks : string list) : string =
      | _ -> "?unknown-op")
   | _ -> "?unknown-query"
 
+
+(* ---------------- C03 / C04 / C05 discrete operator ---------------- *)
+let op_nr = ref 0 and op_nth = ref 0 and op_dirbc = ref false
+let op_rad : q array ref = ref [||] and op_ang : q array ref = ref [||]
+let op_arr : q array ref = ref [||] and op_att : q array ref = ref [||] and op_art : q array ref = ref [||]
+let op_det : q array ref = ref [||] and op_beta : q array ref = ref [||]
+let op_h i = let i = int_of_z i in if i >= 0 && i + 1 < Array.length !op_rad then tq (qsub !op_rad.(i+1) !op_rad.(i)) else tq qzero
+let op_k j = let j = int_of_z j in if j >= 0 && j + 1 < Array.length !op_ang then tq (qsub !op_ang.(j+1) !op_ang.(j)) else tq qzero
+let op_node (a : q array ref) i j =
+  let i = int_of_z i and j = int_of_z j in
+  if i >= 0 && i < !op_nr && j >= 0 && j < !op_nth then tq !a.(i * !op_nth + j) else tq qzero
+let op_b i = let i = int_of_z i in if i >= 0 && i < !op_nr then tq !op_beta.(i) else tq qzero
+
+let merge_row2 (r : ((Big_int_Z.big_int * Big_int_Z.big_int) * Model.t) list) : ((int * int) * q) list =
+  let tbl = Hashtbl.create 16 in
+  List.iter (fun ((a, b), w) ->
+    let key = (int_of_z a, int_of_z b) in
+    let old = try Hashtbl.find tbl key with Not_found -> qzero in
+    Hashtbl.replace tbl key (qadd old (qt w))) r;
+  let l = Hashtbl.fold (fun k v acc -> (k, v) :: acc) tbl [] in
+  List.sort compare (List.filter (fun (_, v) -> Big_int_Z.sign_big_int v.qnum <> 0) l)
+
+(* compare an implementation row "a,b,hex ..." with a model row: same key set, values within tol * row scale *)
+let check_row (rhs : string) (model : ((int * int) * q) list) (tol : float) : string =
+  let impl = List.map (fun tok -> match String.split_on_char ',' tok with
+    | [a; b; v] -> ((ios a, ios b), fl v) | _ -> failwith "bad entry") (split_ws rhs) in
+  let impl = List.sort compare impl in
+  let mf = List.map (fun (k, v) -> (k, float_of_q v)) model in
+  let scale = List.fold_left (fun a (_, v) -> a +. Float.abs v) 0.0 mf in
+  let keys_i = List.map fst impl and keys_m = List.map fst mf in
+  if keys_i <> keys_m then
+    Printf.sprintf "CHECK FAIL structure: model has %s" (String.concat " " (List.map (fun ((a, b), v) -> Printf.sprintf "%d,%d,%h" a b v) mf))
+  else begin
+    let dev = List.fold_left2 (fun a (_, x) (_, y) -> Float.max a (Float.abs (x -. y))) 0.0 impl mf in
+    if dev <= tol *. (Float.max scale 1e-300) && List.for_all (fun (_, x) -> Float.is_finite x) impl
+    then Printf.sprintf "CHECK ok dev=%.2e" (dev /. Float.max scale 1e-300)
+    else Printf.sprintf "CHECK FAIL value: dev/scale=%.3e model has %s" (dev /. Float.max scale 1e-300)
+           (String.concat " " (List.map (fun ((a, b), v) -> Printf.sprintf "%d,%d,%h" a b v) mf))
+  end
+
+let operator_query (toks : string list) (rhs : string) : string =
+  match toks with
+  | "OGRID" :: nr :: nth :: dirbc :: "|" :: rest ->
+    (match fields rest with
+     | [radii; angles] ->
+       op_nr := ios nr; op_nth := ios nth; op_dirbc := (dirbc = "1");
+       op_rad := Array.of_list (List.map qf radii); op_ang := Array.of_list (List.map qf angles); "ok"
+     | _ -> "?bad-OGRID")
+  | "COEF" :: "|" :: rest ->
+    (match fields rest with
+     | [a; t; m; d; b] ->
+       let arr l = Array.of_list (List.map qf l) in
+       op_arr := arr a; op_att := arr t; op_art := arr m; op_det := arr d; op_beta := arr b; "ok"
+     | _ -> "?bad-COEF")
+  | ["ROW"; op; i; j] ->
+    let nr = z_of_int !op_nr and nth = z_of_int !op_nth in
+    let r0 = tq !op_rad.(0) in
+    let row = (match op with
+      | "take" | "csrtake" ->
+        q_A_take_row nr nth op_h op_k r0 (op_node op_arr) (op_node op_att) (op_node op_art) (op_node op_det) op_b !op_dirbc (zs i) (zs j)
+      | "give1" | "giveN" | "csrgive" ->
+        q_A_give_row nr nth op_h op_k r0 (op_node op_arr) (op_node op_att) (op_node op_art) (op_node op_det) op_b !op_dirbc (zs i) (zs j)
+      | _ -> failwith "unknown operator") in
+    check_row rhs (merge_row2 row) 1e-11
+  | "PROP" :: _ -> "ok"
+  | _ -> "?unknown-query"
+
 let () =
   let mode = if Array.length Sys.argv > 1 then Sys.argv.(1) else "" in
   let handler = match mode with
-    | "grid" -> grid_query
-    | "linalg" -> linalg_query
-    | "interp" -> interp_query
+    | "grid" -> (fun t _ -> grid_query t)
+    | "linalg" -> (fun t _ -> linalg_query t)
+    | "interp" -> (fun t _ -> interp_query t)
+    | "operator" -> operator_query
     | _ -> prerr_endline ("unknown mode " ^ mode); exit 2 in
   try
     while true do
       let line = input_line stdin in
       if String.length line > 0 && line.[0] <> '#' then begin
-        let (lhs, _) = split_arrow line in
-        let res = (try handler (split_ws lhs) with e -> "?exception " ^ Printexc.to_string e) in
+        let (lhs, rhs) = split_arrow line in
+        let res = (try handler (split_ws lhs) rhs with e -> "?exception " ^ Printexc.to_string e) in
         print_string lhs; print_string " => "; print_endline res
       end
     done
